@@ -506,8 +506,37 @@ func TestEventsForwarderMode(t *testing.T) {
 		pool := transport.NewTransportPool(logrus.StandardLogger(), viper.New())
 		c, _ := pool.Get("default")
 		c.Client.Transport = rt
-		rt.Script = func(a *fakes.Attempt) fakes.Reply { return fakes.Reply{Status: 202} }
-		fwd, err := statsd.NewHttpForwarderHandlerV2(logrus.StandardLogger(), "default", "http://up.invalid", 1, 4, 1, false, "none", 0, -1, time.Hour, nil, nil, pool, nil)
+		// forwarder settings that must not matter for what arrives: compression, and - with retries enabled - the first
+		// attempts being refused so that several events are pending at once
+		comp := rapid.SampledFrom([]string{"none", "zlib", "lz4"}).Draw(t, "compression")
+		level := rapid.IntRange(0, 9).Draw(t, "level")
+		refuse := 0
+		elapsed := time.Duration(-1)
+		if rapid.IntRange(0, 15).Draw(t, "retries") == 0 { // rarely: every refused attempt costs real back-off time (>= 0.5 s)
+			elapsed = 5 * time.Second
+			refuse = rapid.IntRange(1, 2).Draw(t, "refused-attempts")
+		}
+		var amu sync.Mutex
+		var accepted [][]byte
+		attempts := 0
+		rt.Script = func(a *fakes.Attempt) fakes.Reply {
+			if a.Path != "/v2/event" {
+				return fakes.Reply{Status: 202}
+			}
+			amu.Lock()
+			defer amu.Unlock()
+			attempts++
+			if attempts <= refuse {
+				return fakes.Reply{Status: 503}
+			}
+			body, err := fakes.Inflate(a.Header.Get("Content-Encoding"), a.Body)
+			if err != nil {
+				return fakes.Reply{Status: 400}
+			}
+			accepted = append(accepted, body)
+			return fakes.Reply{Status: 202}
+		}
+		fwd, err := statsd.NewHttpForwarderHandlerV2(logrus.StandardLogger(), "default", "http://up.invalid", 1, 4, 1, comp != "none", comp, level, elapsed, time.Hour, nil, nil, pool, nil)
 		if err != nil {
 			t.Fatalf("%v", err)
 		}
@@ -547,12 +576,12 @@ func TestEventsForwarderMode(t *testing.T) {
 		<-done
 		th.WaitForEvents()
 		var got []string
-		for _, a := range rt.Attempts() {
-			if a.Path != "/v2/event" {
-				continue
-			}
+		amu.Lock()
+		bodies := append([][]byte(nil), accepted...)
+		amu.Unlock()
+		for _, body := range bodies {
 			var msg pb.EventV2
-			if err := proto.Unmarshal(a.Body, &msg); err != nil {
+			if err := proto.Unmarshal(body, &msg); err != nil {
 				vt.Fail(t, "C19:forwarder-event-undecodable", "%v", err)
 			}
 			e := &gostatsd.Event{Title: msg.Title, Text: msg.Text, AggregationKey: msg.AggregationKey, SourceTypeName: msg.SourceTypeName, Source: gostatsd.Source(msg.Hostname), Tags: msg.Tags}
@@ -565,8 +594,8 @@ func TestEventsForwarderMode(t *testing.T) {
 		sort.Strings(got)
 		sort.Strings(want)
 		if strings.Join(got, "\n") != strings.Join(want, "\n") {
-			vt.Fail(t, "C19:forwarder-events", "upstream received %d events, %d accepted; first difference: %s", len(got), len(want), firstDiff(got, want))
+			vt.Fail(t, "C19:forwarder-events", "upstream accepted %d events, %d were forwarded (compression %s level %d, %d refused attempts); first difference: %s", len(got), len(want), comp, level, refuse, firstDiff(got, want))
 		}
-		ev.C().Case("F|"+strings.Join(lines, ";"), len(specs) >= 2, "forwarder-mode")
+		ev.C().Case(fmt.Sprintf("F|%s|%d|%d|", comp, level, refuse)+strings.Join(lines, ";"), len(specs) >= 2, "forwarder-mode", "compression="+comp)
 	})
 }
